@@ -1,4 +1,80 @@
 // Unit X — C02 (flattening) / C08 (extension): what complex.rs must compute, stated over the roxmltree stand-in.
+//# section: field-relation-uninterp
+    // "f is the field that Field::try_from_node yields for node n" (fallback when Field::try_from_node is only named)
+    pub uninterp spec fn is_field_of(f: Field, n: Node) -> bool;
+//# section: field-flags-spec
+    // ---- C02: the occurrence flags of a member, from the property ("T when required, Option<T> when optional or a choice branch, Vec<T> when it
+    // may repeat"), over the member itself and the sequence / choice / all groups that enclose it up to the type definition
+    pub open spec fn is_grp3(n: Node) -> bool { tag(n) == "sequence"@ || tag(n) == "choice"@ || tag(n) == "all"@ }
+    // anc(n)[i] is an enclosing group of n: every node between n and it is a group
+    pub open spec fn encl(n: Node, i: int) -> bool { 1 <= i < anc(n).len() && forall|j: int| 1 <= j <= i ==> is_grp3(#[trigger] anc(n)[j]) }
+    // maxOccurs present and neither "1" nor "0" (a count above one, or "unbounded")
+    pub open spec fn may_repeat(g: Node) -> bool { match attr(g, "maxOccurs"@) { Some(v) => v != "1"@ && v != "0"@, None => false } }
+    pub open spec fn min0(g: Node) -> bool { attr(g, "minOccurs"@) == Some("0"@) }
+    pub open spec fn vec_spec(n: Node) -> bool { may_repeat(n) || exists|i: int| encl(n, i) && may_repeat(#[trigger] anc(n)[i]) }
+    pub open spec fn opt_spec(n: Node) -> bool {
+        if tag(n) == "attribute"@ { attr(n, "use"@) != Some("required"@) }
+        else { min0(n) || exists|i: int| encl(n, i) && (min0(#[trigger] anc(n)[i]) || tag(anc(n)[i]) == "choice"@) }
+    }
+    pub open spec fn choice_spec(n: Node) -> bool { match parent_of(n) { Some(p) => tag(p) == "choice"@, None => false } }
+    // "f is the field of member n": the flags follow the declaration; a named member keeps its XML name.  (xs:any is outside the subset: unconstrained.)
+    pub open spec fn is_field_of(f: Field, n: Node) -> bool {
+        tag(n) != "any"@ ==> {
+            &&& !f.is_any
+            &&& f.is_vec == vec_spec(n)
+            &&& f.is_optional == opt_spec(n)
+            &&& f.is_attribute == (tag(n) == "attribute"@)
+            &&& f.is_choice == choice_spec(n)
+            &&& (attr(n, "ref"@) is None ==> attr(n, "name"@) == Some(f.xml_name@))
+        }
+    }
+    // the groups collected by `ancestors().skip(1).take_while(is a group)` are exactly the enclosing groups
+    pub proof fn lemma_groups(n: Node, groups: Seq<Node>)
+        requires
+            groups.len() <= anc(n).skip(1).len(),
+            forall|i: int| 0 <= i < groups.len() ==> #[trigger] groups[i] == anc(n).skip(1)[i] && is_grp3(groups[i]),
+            groups.len() < anc(n).skip(1).len() ==> !is_grp3(anc(n).skip(1)[groups.len() as int]),
+        ensures
+            forall|i: int| encl(n, i) <==> 1 <= i <= groups.len(),
+            forall|i: int| 0 <= i < groups.len() ==> #[trigger] groups[i] == anc(n)[i + 1],
+    {
+        broadcast use crate::roxmltree::anc_chain;
+        let a = anc(n);
+        assert forall|i: int| encl(n, i) <==> 1 <= i <= groups.len() by {
+            if 1 <= i <= groups.len() {
+                assert forall|j: int| 1 <= j <= i implies is_grp3(#[trigger] a[j]) by { assert(groups[j - 1] == a.skip(1)[j - 1]); }
+            }
+            if encl(n, i) && i > groups.len() {
+                assert(is_grp3(a[groups.len() as int + 1]));
+                assert(a.skip(1)[groups.len() as int] == a[groups.len() as int + 1]);
+            }
+        }
+        assert forall|i: int| 0 <= i < groups.len() implies #[trigger] groups[i] == a[i + 1] by { assert(groups[i] == a.skip(1)[i]); }
+    }
+    // from "some collected group has the attribute" to the property's wording over enclosing groups
+    pub proof fn lemma_flags(n: Node, groups: Seq<Node>, pv: bool, po: bool, ic: bool)
+        requires
+            forall|i: int| encl(n, i) <==> 1 <= i <= groups.len(),
+            forall|i: int| 0 <= i < groups.len() ==> #[trigger] groups[i] == anc(n)[i + 1],
+            pv == (exists|i: int| 0 <= i < groups.len() && may_repeat(#[trigger] groups[i])),
+            po == (exists|i: int| 0 <= i < groups.len() && min0(#[trigger] groups[i])),
+            ic == (exists|i: int| 0 <= i < groups.len() && tag(#[trigger] groups[i]) == "choice"@),
+        ensures
+            (may_repeat(n) || pv) == vec_spec(n),
+            tag(n) != "attribute"@ ==> (min0(n) || po || ic) == opt_spec(n),
+    {
+        if pv { let i = choose|i: int| 0 <= i < groups.len() && may_repeat(#[trigger] groups[i]); assert(encl(n, i + 1) && may_repeat(anc(n)[i + 1])); }
+        if exists|i: int| encl(n, i) && may_repeat(#[trigger] anc(n)[i]) {
+            let i = choose|i: int| encl(n, i) && may_repeat(#[trigger] anc(n)[i]); assert(may_repeat(groups[i - 1]));
+        }
+        if po { let i = choose|i: int| 0 <= i < groups.len() && min0(#[trigger] groups[i]); assert(encl(n, i + 1) && min0(anc(n)[i + 1])); }
+        if ic { let i = choose|i: int| 0 <= i < groups.len() && tag(#[trigger] groups[i]) == "choice"@; assert(encl(n, i + 1) && tag(anc(n)[i + 1]) == "choice"@); }
+        if exists|i: int| encl(n, i) && (min0(#[trigger] anc(n)[i]) || tag(anc(n)[i]) == "choice"@) {
+            let i = choose|i: int| encl(n, i) && (min0(#[trigger] anc(n)[i]) || tag(anc(n)[i]) == "choice"@);
+            assert(groups[i - 1] == anc(n)[i]);
+            assert(min0(groups[i - 1]) || tag(groups[i - 1]) == "choice"@);
+        }
+    }
 //# section: flatten-spec
     // ---- spec: the members a content model declares, in document order (written from the property: every element / any /
     // attribute is one member; nested sequence and choice groups are flattened in place; nothing else contributes)
@@ -17,8 +93,6 @@
         }
     }
     pub open spec fn members<'a, 'b>(n: Node<'a, 'b>) -> Seq<Node<'a, 'b>> { flat(n, elem_kids(n).len()) }
-    // "f is the field that Field::try_from_node yields for node n" (defined by the contract of that function)
-    pub uninterp spec fn is_field_of(f: Field, n: Node) -> bool;
     pub open spec fn appended(old_out: Seq<Field>, new_out: Seq<Field>, ms: Seq<Node>) -> bool {
         new_out.len() == old_out.len() + ms.len()
         && (forall|i: int| 0 <= i < old_out.len() ==> new_out[i] == old_out[i])
